@@ -101,10 +101,11 @@ CLAIMS["C02"] = _b(
     "of (c, n) and every not aborted call is in the table of its connected caller (pending_entry_is_live_call, "
     "live_call_is_pending_at_its_caller); the reply of the owner of the called object puts exactly CallFunctionReply(n, r) - caller's "
     "serial, owner's result and payload - into c's queue and clears both tables (owner_reply_delivered); a reply of any other "
-    "connection puts nothing into any queue (foreign_reply_not_delivered). Per handler, every state: no_service, "
+    "connection puts nothing into any queue (foreign_reply_not_delivered); when c aborts its pending call and is still served after "
+    "the turn, exactly one CallFunctionReply(n) was queued for it in that turn and it says Aborted (abort_is_answered). Per handler, every state: no_service, "
     "owner_reply_forwarded, unknown_reply_ignored, foreign_reply_ignored, abort_answers_once, abort_twice_silent, "
     "reply_after_abort_is_dropped. Partial: that a pending call IS answered when its service or object is destroyed or its owner "
-    "disconnects (callee side of the invariant), that an abort is answered within the same turn, and absence of panics are decided by "
+    "disconnects (callee side of the invariant) and absence of panics are decided by "
     "the correspondence runs (overlapping calls, serial reuse also right after an abort, aborts, destruction, all four disconnect "
     "modes, mixed versions).", "DESIGN.md section 6 C02 and 10.2")
 CLAIMS["C03"] = _b(
